@@ -589,6 +589,28 @@ func TestVerifC03(t *testing.T) {
 			var p c03prog
 			var st c03strategy
 			switch {
+			case i%40 == 1:
+				// relay: a reader A is stopped around its add, a third thread swaps the
+				// mapping (growth or rotation), A goes on for d more steps (taking the
+				// lock, marking the pointer valid, ...), a second adder B then meets the
+				// counter in that state and runs to completion, A finishes. Systematic
+				// in (program, who is A, where A stops, d).
+				j := i / 40
+				add := func(c int) c03op { return c03op{Kind: "add", Ctr: c, N: 1} }
+				p = c03prog{Name: "relay-grow", PreOpen: true, PreFill: 3, PreTouch: []int{0}, NCtr: 1, Threads: [][]c03op{{add(0)}, {add(0)}, {{Kind: "grow"}}}}
+				if j%2 == 1 {
+					p = c03prog{Name: "relay-rotate", PreOpen: true, PreTouch: []int{0}, NCtr: 1, Threads: [][]c03op{{add(0)}, {add(0)}, {{Kind: "rotate"}}}}
+				}
+				j /= 2
+				a, bth := j%2, 1-j%2
+				j /= 2
+				plusA, d := j%3, 1+(j/3)%4
+				st = c03strategy{Kind: "relay", Phases: []verifrt.Phase{
+					{Thread: a, AtPt: "Counter.add:1:CompareAndSwap", Plus: plusA},
+					{Thread: 2, Until: -1},
+					{Thread: a, AtPt: "counterState.update:0:CompareAndSwap", Plus: d},
+					{Thread: bth, Until: -1},
+					{Thread: a, Until: -1}}}
 			case i%2 == 0: // targeted on core programs: systematic in (program, victim, k)
 				j := i / 2
 				p = core[j%len(core)]
